@@ -86,6 +86,11 @@ def run(tier):
 
     # ---------------------------------------------------------------- C01.d first integral
     _first_integrals(chk, field, st, mu, R)
+    # the compiled right-hand side a system hands out is the one built for its own mu: caches of compiled kernels must be
+    # keyed by everything baked into the kernel (hv.memo)
+    from .. import memo
+    memo.check_modules(chk, "C01.c-memo", ["hiten.algorithms.dynamics.base", "hiten.algorithms.dynamics.rtbp"], floor=2,
+                       what="hand-rolled caches of compiled right-hand sides")
     chk.floor("C01 obligations", chk.obligations, 36 + 42 + 6 + 5)
     return chk
 
